@@ -195,6 +195,21 @@ func c18Snapshots(k int) map[string]*config.ClusterResources {
 	lp.BGPAdvs[k-1].Spec = metallbv1beta1.BGPAdvertisementSpec{AggregationLength: ptr.To(int32(32)), AggregationLengthV6: ptr.To(int32(128)), LocalPref: 999}
 	res["rej-localpref-conflict"] = &lp
 
+	// local-pref conflict visible in one family only, on dual-stack pools (verdict must not depend on any order)
+	for _, fam := range []string{"v4", "v6"} {
+		lpf := c18Apply(rich, nil)
+		l4, l6 := int32(24), int32(128)
+		if fam == "v4" {
+			l4, l6 = 32, 64
+		}
+		lpf.BGPAdvs[0].Spec = metallbv1beta1.BGPAdvertisementSpec{AggregationLength: ptr.To(int32(32)), AggregationLengthV6: ptr.To(int32(128)), LocalPref: 100}
+		lpf.BGPAdvs[k-1].Spec = metallbv1beta1.BGPAdvertisementSpec{AggregationLength: ptr.To(l4), AggregationLengthV6: ptr.To(l6), LocalPref: 200}
+		for i := 1; i < k-1; i++ {
+			lpf.BGPAdvs[i].Spec = metallbv1beta1.BGPAdvertisementSpec{AggregationLength: ptr.To(int32(30 - i)), AggregationLengthV6: ptr.To(int32(120 - i)), LocalPref: 100}
+		}
+		res["rej-localpref-equal-length-only-"+fam] = &lpf
+	}
+
 	nodeip := c18Apply(rich, nil)
 	nodeip.Nodes[k-1].Status.Addresses[0].Address = "10.0.1.7"
 	res["rej-node-ip-in-pool"] = &nodeip
